@@ -378,6 +378,58 @@ impl<'a> FnGen<'a> {
             }
             blocks.push(Term { tid: blk_tid(b), term: Blk { defs, jmps, indirect_jmp_targets: ind } });
         }
+        // planted pattern "block entered only under condition c, then an empty block re-testing c":
+        //   b0: if c goto b1 else ..   b1: defs (half of the time overwriting an input of c) ; goto b2
+        //   b2: (empty) if c goto g else h
+        if self.mode == Mode::Chain && n >= 4 && self.rng.chance(2, 3) {
+            let c = self.chain_conds[0].clone();
+            let jt = |b: usize, k: usize| mk_tid(&format!("instr_{}_j{}", blk_addr(b), k), &blk_addr(b));
+            let other = 1 + self.rng.below((n - 1) as u64) as usize;
+            let (c0, neg) = if self.rng.chance(1, 3) {
+                (if let Expression::UnOp { op: UnOpType::BoolNegate, arg } = &c { (**arg).clone() } else { un(UnOpType::BoolNegate, c.clone()) }, true)
+            } else {
+                (c.clone(), false)
+            };
+            // b0 reaches b1 on the edge where c holds
+            blocks[0].term.indirect_jmp_targets.clear();
+            blocks[0].term.jmps = if neg {
+                vec![Term { tid: jt(0, 0), term: Jmp::CBranch { target: blk_tid(other), condition: c0 } }, Term { tid: jt(0, 1), term: Jmp::Branch(blk_tid(1)) }]
+            } else {
+                vec![Term { tid: jt(0, 0), term: Jmp::CBranch { target: blk_tid(1), condition: c0 } }, Term { tid: jt(0, 1), term: Jmp::Branch(blk_tid(other)) }]
+            };
+            // no other way into b1
+            for (bi, blk) in blocks.iter_mut().enumerate() {
+                if bi == 0 {
+                    continue;
+                }
+                for j in blk.term.jmps.iter_mut() {
+                    match &mut j.term {
+                        Jmp::Branch(t) | Jmp::CBranch { target: t, .. } if *t == blk_tid(1) => *t = blk_tid(n - 1),
+                        Jmp::Call { return_: Some(t), .. } | Jmp::CallInd { return_: Some(t), .. } | Jmp::CallOther { return_: Some(t), .. } if *t == blk_tid(1) => *t = blk_tid(n - 1),
+                        _ => (),
+                    }
+                }
+                blk.term.indirect_jmp_targets.retain(|t| *t != blk_tid(1));
+            }
+            if self.rng.chance(2, 3) {
+                // overwrite an input of c in b1
+                let inputs: Vec<Variable> = c.input_vars().into_iter().filter(|v| !v.is_temp && **v != sp_var()).cloned().collect();
+                if !inputs.is_empty() {
+                    let v = self.rng.pick(&inputs).clone();
+                    let ctx = Ctx::default();
+                    let ty = if v.size == ByteSize::new(1) { Ty::Bool } else { Ty::Int(u64::from(v.size)) };
+                    let e = eg(self.rng).expr(ty, 2, &ctx);
+                    let k = blocks[1].term.defs.len();
+                    blocks[1].term.defs.push(Term { tid: mk_tid(&format!("instr_{}_q{}", blk_addr(1), k), &blk_addr(1)), term: Def::Assign { var: v, value: e } });
+                }
+            }
+            blocks[1].term.indirect_jmp_targets.clear();
+            blocks[1].term.jmps = vec![Term { tid: jt(1, 0), term: Jmp::Branch(blk_tid(2)) }];
+            let (g, h) = (2 + self.rng.below((n - 2) as u64) as usize, 2 + self.rng.below((n - 2) as u64) as usize);
+            blocks[2].term.defs.clear();
+            blocks[2].term.indirect_jmp_targets.clear();
+            blocks[2].term.jmps = vec![Term { tid: jt(2, 0), term: Jmp::CBranch { target: blk_tid(g.max(3).min(n - 1)), condition: c } }, Term { tid: jt(2, 1), term: Jmp::Branch(blk_tid(h.max(3).min(n - 1))) }];
+        }
         // planted pattern "empty forwarding entry block that is also the target of a back edge"
         if self.mode == Mode::Forward && n >= 3 && self.rng.chance(2, 3) {
             let t = 1 + self.rng.below((n - 1) as u64) as usize;
@@ -705,7 +757,7 @@ pub fn cases_of(raw: &Project, idx: u64, inits: &[Value], seed: u64, raw_file: &
 }
 
 pub fn gen(out: &mut Out, _sub: &str) {
-    let nfun = out.size(150, 5000);
+    let nfun = out.size(120, 600);
     let seed = out.seed;
     let rawdir = format!("{}/raw", out_dir(out));
     std::fs::create_dir_all(&rawdir).unwrap();
